@@ -927,6 +927,11 @@ func ModifyRegister(register *object.Register, in ast.Node) (ast.Node, bool) {
 		if t := in.Type(); (t == token.ASSIGN || t == token.DEFINE) && in.Left == ast.Node(register) {
 			return nil, false
 		}
+	case *ast.IndexExpression:
+		// m.x where x is also the variable's name: the field name is not the variable.
+		if in.Type() == token.DOT && in.Index == ast.Node(register) {
+			return nil, false
+		}
 	case *ast.PrefixExpression:
 		// ++x / --x on the variable itself: evalPrefixIncrDecr needs an identifier.
 		if t := in.Type(); (t == token.INCR || t == token.DECR) && in.Right == ast.Node(register) {
@@ -1026,7 +1031,7 @@ func (s *State) evalForInteger(fe *ast.ForExpression, start *int64, end int64, n
 				return s.Errorf("for loop unexpected control type %s", r.ControlType.String())
 			}
 		default:
-			lastEval = nextEval
+			lastEval = object.CopyRegister(nextEval) // the loop's value must not change with the next iteration.
 		}
 	}
 	return lastEval
